@@ -64,6 +64,7 @@ func (s scenario) String() string {
 type env struct {
 	client    kv.Client
 	secondary kv.Client // multi wrapper: the store the primary's writes are mirrored to
+	rival     *rivalStore
 	closers   []io.Closer
 	mkvs      []*memberlist.KV
 }
@@ -134,11 +135,55 @@ func newEnv(sc scenario) (*env, error) {
 			return nil, err
 		}
 		c = kv.VerifNewMultiClient(kv.MultiConfig{MirrorEnabled: true}, sc.Backend, c, other, rejectingStore{sec}, log.NewNopLogger(), nil)
+	case "multi-switched":
+		// the store under test is the second of the two and was made the primary at run time; just before
+		// some of the writes that reach it, a rival writer (outside the multi client) completes a whole
+		// compare-and-swap of its own on it
+		other := "consul"
+		if sc.Backend == "consul" {
+			other = "etcd"
+		}
+		sec, err := e.backend(other)
+		if err != nil {
+			return nil, err
+		}
+		e.secondary = sec
+		ch := make(chan kv.MultiRuntimeConfig)
+		e.closers = append(e.closers, closerFunc(func() error { close(ch); return nil }))
+		rs := &rivalStore{Client: c}
+		e.rival = rs
+		mc := kv.VerifNewMultiClient(kv.MultiConfig{MirrorEnabled: true, ConfigProvider: func() <-chan kv.MultiRuntimeConfig { return ch }}, other, sec, sc.Backend, rs, log.NewNopLogger(), nil)
+		ch <- kv.MultiRuntimeConfig{PrimaryStore: sc.Backend}
+		ch <- kv.MultiRuntimeConfig{} // the first message has been processed once this one is taken
+		c = mc
 	case "prefix+metrics":
 		c = kv.VerifMetricsClient(sc.Backend, kv.PrefixClient(c, "pfx/"), prometheus.NewRegistry())
 	}
 	e.client = c
 	return e, nil
+}
+
+type closerFunc func() error
+
+func (f closerFunc) Close() error { return f() }
+
+// rivalStore calls before() ahead of every write that reaches the wrapped store.
+type rivalStore struct {
+	kv.Client
+	mu     sync.Mutex
+	n      int
+	before func(n int)
+}
+
+func (r *rivalStore) CAS(ctx context.Context, key string, f func(interface{}) (interface{}, bool, error)) error {
+	r.mu.Lock()
+	r.n++
+	n, before := r.n, r.before
+	r.mu.Unlock()
+	if before != nil {
+		before(n)
+	}
+	return r.Client.CAS(ctx, key, f)
 }
 
 // rejectingStore fails every write.
@@ -155,6 +200,7 @@ type outcome struct {
 	commits       int
 	incomplete    bool
 	mirrorChecked bool
+	rivals        int
 }
 
 // execute runs the callers under the schedule: at each step the plan picks among "start a caller not
@@ -272,6 +318,41 @@ func execute(t *testing.T, sc scenario) (out outcome) {
 					committedOut[lastOut] = true
 				} else {
 					notWritten[fmt.Sprintf("op-%d-%d", c, o)] = true
+				}
+				mu.Unlock()
+			}
+		}
+		if e.rival != nil {
+			rivals := 0
+			e.rival.before = func(n int) {
+				// ahead of the 2nd, 3rd and 5th write reaching the primary store
+				if n != 2 && n != 3 && n != 5 {
+					return
+				}
+				mu.Lock()
+				rivals++
+				id := rivals
+				mu.Unlock()
+				var in int64
+				var outS string
+				err := e.rival.Client.CAS(ctx, "k", func(v interface{}) (interface{}, bool, error) {
+					in = counterOf(v)
+					d := ring.GetOrCreateRingDesc(v)
+					cnt := d.Ingesters["counter"]
+					cnt.Timestamp = in + 1
+					cnt.Addr = "counter"
+					d.Ingesters["counter"] = cnt
+					d.Ingesters[fmt.Sprintf("op-%d-%d", 90, id)] = ring.InstanceDesc{Timestamp: 1, Addr: "x"}
+					outS = model.CanonDesc(d)
+					return d, true, nil
+				})
+				mu.Lock()
+				if err == nil {
+					commits = append(commits, commit{90, id, in})
+					committedOut[outS] = true
+					out.rivals++
+				} else {
+					notWritten[fmt.Sprintf("op-%d-%d", 90, id)] = true
 				}
 				mu.Unlock()
 			}
@@ -440,7 +521,7 @@ func names(d *ring.Desc) []string {
 }
 
 var backends = []string{"consul", "etcd", "memberlist"}
-var wrappers = []string{"bare", "bare", "prefix", "metrics", "multi", "multi", "multi-badmirror", "prefix+metrics"}
+var wrappers = []string{"bare", "bare", "prefix", "metrics", "multi", "multi", "multi-badmirror", "multi-switched", "multi-switched", "prefix+metrics"}
 
 func TestCASSchedulesRapid(t *testing.T) {
 	rapid.Check(t, func(rt *rapid.T) {
@@ -459,6 +540,9 @@ func TestCASSchedulesRapid(t *testing.T) {
 		vx.Eval(1)
 		vx.Class("backend_"+sc.Backend, 1)
 		vx.Class("wrapper_"+sc.Wrapper, 1)
+		if out.rivals > 0 {
+			vx.Class("schedules_with_rival_writes_on_a_primary_switched_at_run_time", 1)
+		}
 		if out.races > 0 {
 			vx.NonTrivial(vx.FP(sc.String()))
 			vx.Class("quiescent_points_with_shared_read", out.races)
